@@ -6,6 +6,7 @@ import (
 	"strconv"
 	"strings"
 	"sync"
+	"sync/atomic"
 	"testing"
 	"time"
 
@@ -267,7 +268,7 @@ type C08BCase struct {
 }
 
 func c08BGen(t *rapid.T) C08BCase {
-	return C08BCase{Conns: rapid.IntRange(4, 16).Draw(t, "conns"), Ops: rapid.IntRange(100, 600).Draw(t, "ops"), Kind: rapid.IntRange(0, 6).Draw(t, "kind"), Pad: pick(t, "pad", 0, 16, 1024)}
+	return C08BCase{Conns: rapid.IntRange(4, 16).Draw(t, "conns"), Ops: rapid.IntRange(100, 600).Draw(t, "ops"), Kind: rapid.IntRange(0, 7).Draw(t, "kind"), Pad: pick(t, "pad", 0, 16, 1024)}
 }
 
 func c08BRun(c C08BCase, st *kit.Stats) error {
@@ -287,6 +288,9 @@ func c08BRun(c C08BCase, st *kit.Stats) error {
 	}
 	if c.Kind == 6 {
 		return c08Rounds(c, emu, st)
+	}
+	if c.Kind == 7 {
+		return c08Torn(c, emu, st)
 	}
 	var wg sync.WaitGroup
 	errs := make(chan error, c.Conns)
@@ -551,6 +555,85 @@ func c08Rounds(c C08BCase, emu *kit.Emu, st *kit.Stats) error {
 	}
 	st.ClassN("concurrent-commands", rounds*c.Conns)
 	st.Class("kind:6")
+	st.NonTrivial(fmt.Sprintf("%+v", c), c)
+	return nil
+}
+
+// c08Torn: writers replace the whole content of one large string (all 0x00 <-> all 0xFF, same length) with SET,
+// SETRANGE at offset 0 or MSET, while readers scan it (BITCOUNT, GET, GETRANGE, BITPOS, STRLEN). Every command is
+// atomic, so every reader sees one of the two contents in full: a BITCOUNT other than 0 or 8n, or a GET that
+// is not uniform, is a half-applied write.
+func c08Torn(c C08BCase, emu *kit.Emu, st *kit.Stats) error {
+	n := 64<<10 + c.Pad*256 // 64 KiB, 68 KiB, 320 KiB
+	zero, ones := strings.Repeat("\x00", n), strings.Repeat("\xff", n)
+	admin := emu.Dial()
+	admin.Do("SET", "big", zero)
+	writers, readers := 1+c.Conns/8, 2+c.Conns/4
+	ops := c.Ops / 4
+	var wg sync.WaitGroup
+	errs := make(chan error, writers+readers)
+	var stop atomic.Bool
+	for w := 0; w < writers; w++ {
+		conn := emu.Dial()
+		wg.Add(1)
+		go func(w int) {
+			defer wg.Done()
+			for j := 0; j < ops && !stop.Load(); j++ {
+				v := zero
+				if j%2 == 0 {
+					v = ones
+				}
+				switch (j/2 + w) % 3 {
+				case 0:
+					conn.Do("SETRANGE", "big", "0", v)
+				case 1:
+					conn.Do("SET", "big", v)
+				default:
+					conn.Do("MSET", "big", v, "other", "x")
+				}
+			}
+		}(w)
+	}
+	for r := 0; r < readers; r++ {
+		conn := emu.Dial()
+		wg.Add(1)
+		go func(r int) {
+			defer wg.Done()
+			for j := 0; j < ops*2 && !stop.Load(); j++ {
+				switch (j + r) % 4 {
+				case 0, 1:
+					v, err := conn.Do("BITCOUNT", "big")
+					if err == nil && v.K == kit.KInt && v.I != 0 && v.I != int64(8*n) {
+						errs <- fmt.Errorf("BITCOUNT of a %d-byte string that writers only ever set to all-zero or all-one bits replied %d: a half-applied write was observed", n, v.I)
+						stop.Store(true)
+						return
+					}
+				case 2:
+					v, err := conn.Do("GET", "big")
+					if err == nil && v.K == kit.KBulk && len(v.S) == n && (v.S[0] != v.S[n-1] || v.S[0] != v.S[n/2] || strings.Count(v.S, v.S[:1]) != n) {
+						errs <- fmt.Errorf("GET of a %d-byte string that writers only ever set to all 0x00 or all 0xFF returned a mix of both: a half-applied write was observed", n)
+						stop.Store(true)
+						return
+					}
+				default:
+					v, err := conn.Do("BITPOS", "big", "1")
+					if err == nil && v.K == kit.KInt && v.I != -1 && v.I != 0 {
+						errs <- fmt.Errorf("BITPOS big 1 on a string that is all 0x00 or all 0xFF replied %d: a half-applied write was observed", v.I)
+						stop.Store(true)
+						return
+					}
+				}
+			}
+		}(r)
+	}
+	wg.Wait()
+	select {
+	case err := <-errs:
+		return err
+	default:
+	}
+	st.ClassN("concurrent-commands", ops*(writers+2*readers))
+	st.Class("kind:7")
 	st.NonTrivial(fmt.Sprintf("%+v", c), c)
 	return nil
 }
